@@ -277,9 +277,68 @@ def scenario(r):
     return b.ops
 
 
+ALT = {"dur": 1, "lk": 1, "ll": 1000, "rel": None, "mbt": 1000, "ord": 1, "hist": 7, "ms": 50, "mi": 9, "mspi": 20,
+       "own": 1, "dl": 5000, "lat": 1000, "tp": 7, "ls": 1000000000, "str": 3, "ud": 9, "sep": 1000, "rep": 2,
+       "adu": 0, "apn": 1000}
+
+
+def systematic():
+    """every policy on its own, on an enabled and on a not-enabled topic / writer / reader (plus the groups)"""
+    out = []
+    for enabled in (True, False):
+        for kind in ("T", "W", "R"):
+            ops = ([] if enabled else ["FQ 0"]) + ["P 0", "T 0 1", "PUB 0", "SUB 0"]
+            base = E.eq_default(kind)
+            if kind == "W":
+                ops.append("W 0 0 %s" % eq_spec(base, kind))
+            elif kind == "R":
+                ops.append("R 0 0 %s" % eq_spec(base, kind))
+            cur = dict(base)
+            for f in IMM + MUT:
+                d = dict(cur)
+                d[f] = (1 - base["rel"]) if f == "rel" else ALT[f]
+                ops.append("sq %s 0 %s" % (kind, eq_spec(d, kind)))
+                ops.append("gq %s 0" % kind)
+                if not enabled or f in MUT:
+                    cur = d           # accepted (when the slot exists on the kind)
+            ops.append("en %s 0" % kind)
+            d = dict(cur)
+            d["hist"] = 3
+            ops += ["sq %s 0 %s" % (kind, eq_spec(d, kind)), "gq %s 0" % kind]
+            out.append(ops)
+        for kind in ("PUB", "SUB"):
+            ops = ([] if enabled else ["FQ 0"]) + ["P 0", "%s 0" % kind]
+            cur = E.gq_default()
+            for f in ("sc", "coh", "oa", "part", "gd", "auto"):
+                d = dict(cur)
+                d[f] = 3 if f in ("part", "gd") else 1 - d[f]
+                ops += ["sq %s 0 %s" % (kind, g_spec(d)), "gq %s 0" % kind]
+                if not enabled or f in ("part", "gd", "auto"):
+                    cur = d
+            out.append(ops)
+    # every consistency rule on creation and on set_qos, at the boundary
+    for kind, cr in (("W", "W 0 0"), ("R", "R 0 0"), ("T", "T 0 9")):
+        ops = ["P 0", "T 0 1", "PUB 0", "SUB 0"]
+        specs = ["ms=5 mspi=5", "ms=4 mspi=5", "ms=5 mspi=u", "ms=u mspi=5", "hist=5 mspi=5", "hist=6 mspi=5", "hist=0 mspi=0",
+                 "hist=1 mspi=0", "hist=-1 mspi=0 ms=0", "hist=4294967295 mspi=2147483647 ms=2147483647",
+                 "hist=2147483648 mspi=2147483647 ms=2147483647", "hist=3 mspi=-1", "ms=-5 mspi=-3", "ms=-3 mspi=-5",
+                 "dl=5 sep=5", "dl=5 sep=6", "dl=-1 sep=-1", "dl=7 sep=-1", "dl=-1 sep=7", "rep=1", "rep=3", "rep=4", "rep=0"]
+        for i, sp in enumerate(specs):
+            ops.append("%s %s" % (cr if kind != "T" else "T 0 %d" % (10 + i), sp))
+        ops.append("%s def" % (cr if kind != "T" else "T 0 99"))
+        last = {"W": "W", "R": "R", "T": "T"}[kind]
+        for sp in specs:
+            ops += ["sq %s 0 %s" % (last, sp), "gq %s 0" % last]
+        out.append(ops)
+    return out
+
+
 def gen(r, tier):
     n = {"quick": 220, "search": 800, "thorough": 3500}[tier]
-    return [scenario(r) for _ in range(n)]
+    cases = systematic()
+    while len(cases) < n:
+        cases.append(scenario(r))
+    return cases
 
 
 def corpus():
